@@ -142,6 +142,8 @@ def gen_config(rng, W, variant=None, allow_empty=True, T=3, idx=0, **force):
         # `optimizer.step(closure)`: the DP optimizer evaluates the closure once, BEFORE clipping/noising, and the
         # wrapped optimizer must not re-evaluate it (it would overwrite the released gradient with the raw one)
         closure=(variant in ("flat", "perlayer_simple") and rng.random() < 0.35),
+        # a frozen parameter that differs between the workers before wrapping (1 on rank 0, 1 + rank elsewhere)
+        frozen=(rng.random() < 0.35),
     )
     cfg.update(force)
     return cfg
@@ -490,6 +492,18 @@ def property_oracle(cfg, res, single):
             return (f"C18:no-result:{base}", f"rank {r} produced no result", {})
         if flat2(res[r]["params_after_wrap"]) != flat2(res[0]["params_before_wrap"]):
             return (f"C18:broadcast:{base}", f"after wrapping rank {r} holds {res[r]['params_after_wrap']}, rank 0 started from {res[0]['params_before_wrap']}", {})
+        if res[r].get("frozen_after_wrap") not in (None, 1.0):
+            return (f"C18:broadcast:frozen-parameter:{base}", f"after wrapping rank {r} holds the frozen parameter value {res[r]['frozen_after_wrap']}, rank 0's is 1.0: frozen parameters are not synchronised", {})
+    # accounting: every worker (and the single-process run) records one step per logical step at the
+    # sigma in force and sample rate q·k (k = 1 accumulated batch here; the loader has 3 batches ⇒ q = 1/3)
+    T = len(cfg["steps"])
+    for who, rr in [(f"rank {r}", res[r]) for r in range(W)] + [("single process", single)]:
+        h = rr.get("history")
+        if h is None:
+            continue
+        ok = (len(h) == 1 and h[0][0] == cfg["sigma"] and core.close(h[0][1], 1.0 / 3.0, 1e-12) and h[0][2] == T)
+        if not ok:
+            return (f"C18:accounting:{base}", f"{who}: accountant history after {T} steps at sigma={cfg['sigma']}, q=1/3 is {h}", {"history": h})
     ratio_hits = 0
     bad = None
     for t in range(len(cfg["steps"])):
